@@ -516,11 +516,13 @@ pub fn manybatches(ctx: &Ctx) -> Stats {
                 Rec { id: format!("b{}", i), desc: None, seq: gen_seq(&mut rng, SeqClass::Uniform, len, true) }
             })
             .collect();
-        let cfg = OligoCfg { k, threads: [2usize, 3, 4, 8, 16][(idx % 5) as usize], memory: 1, header: idx % 4 == 0, delim: " ".into(), norm: idx % 2 == 0, writer: Writer::Batch };
+        let limit = [1usize, 12, 30, 60][((idx / 5) % 4) as usize];
+        st.class(&format!("batch limit {} bases", limit));
+        let cfg = OligoCfg { k, threads: [2usize, 3, 4, 8, 16][(idx % 5) as usize], memory: limit, header: idx % 4 == 0, delim: " ".into(), norm: idx % 2 == 0, writer: Writer::Batch };
         let sc = Scratch::new(ctx, "c05b");
         let inp = write_input(&sc, "in", &recs, &Container::FastaSingle, None, &mut rng);
         st.case(true, mix(idx) ^ mix(nrec as u64 + 29));
-        batches.fetch_add(nrec as u64, std::sync::atomic::Ordering::Relaxed);
+        batches.fetch_add((nrec * 6 / limit.max(6)) as u64, std::sync::atomic::Ordering::Relaxed);
         let case = || Json::obj().set("cfg", cfg.json()).set("n_records", Json::u(recs.len())).set("records", recs_json(&recs));
         match run_plain(&sc, &inp, "out.kmers", &cfg) {
             Ok(d) => {
